@@ -12,7 +12,7 @@ From Coq Require Import List Ascii ZArith Bool.
 From CGV Require Import Base.PyBase Base.PyVal Base.PyGen Sample.GenSupport Gen.SamplerGen Sample.SampleImpl
      Sample.SampleDefs Sample.SampleSpec Sample.SampleProofs Sample.SampleTree Sample.SampleFragid Sample.SampleCopy Sample.SampleAccount
      Sample.SampleValid Sample.SampleExample.
-From CGV Require Base.NxGraph Resolve.GraphOps Resolve.SortProofs Sample.SampleFinal Sample.SampleNumbering.
+From CGV Require Base.NxGraph Resolve.GraphOps Resolve.SortProofs Resolve.SortGraphProofs Sample.SampleFinal Sample.SampleNumbering.
 From CGV Require Hydro.Hydrogens Hydro.HydroDefs Hydro.SquashDefs Hydro.RebuildProofs Sample.SampleValence Sample.SampleSorted.
 Import ListNotations.
 Open Scope Z_scope.
@@ -159,6 +159,23 @@ Section C16.
       NxGraph.node_keys gf = map (NxGraph.map_get (GraphOps.mapping_of (GraphOps.isort ks))) (NxGraph.node_keys g1) /\
       Permutation.Permutation (NxGraph.node_keys gf) (map Z.of_nat (seq 0 (length g1))).
   Proof. exact (SampleSorted.sample_numbering_total M c0 madd mltb misz R pick cfg Wf Ha). Qed.
+  (** the sorted graph as a whole (instantiating Resolve/SortGraphProofs.sort_graph): the relabelling is
+      injective on the nodes, onto 0..n-1, and carries adjacency and every attribute except
+      'ez_isomer_atoms' along; the returned graph has the keys of the sorted one (and is it, coarse) *)
+  Theorem C16_sample_sorted_graph : forall target fuel rng start nm i0 m cw log rng' aa car gf,
+    sample_growth M c0 madd mltb misz R pick cfg target fuel rng start = Ok (nm, i0, m, cw, log, rng') ->
+    SampleFinal.finalise_nx aa (SampleFinal.to_nx m) car = Ok gf ->
+    exists g1 g2 mp, (if aa then Hydrogens.rebuild_h_atoms_default (SampleFinal.to_nx m) car else Ok (SampleFinal.to_nx m)) = Ok g1 /\
+      GraphOps.sort_nodes_by_attr g1 = Ok g2 /\ GraphOps.sort_mapping g1 = Ok mp /\
+      SortGraphProofs.inj_on (NxGraph.map_get mp) (NxGraph.node_keys g1) /\
+      Permutation.Permutation (map (NxGraph.map_get mp) (NxGraph.node_keys g1)) (map Z.of_nat (seq 0 (length g1))) /\
+      NxGraph.node_keys g2 = map (NxGraph.map_get mp) (NxGraph.node_keys g1) /\
+      (forall a b, In a (NxGraph.node_keys g1) -> In b (NxGraph.node_keys g1) ->
+         NxGraph.has_edge g2 (NxGraph.map_get mp a) (NxGraph.map_get mp b) = NxGraph.has_edge g1 a b) /\
+      (forall k key, In k (NxGraph.node_keys g1) -> key <> S "ez_isomer_atoms" ->
+         NxGraph.node_get g2 (NxGraph.map_get mp k) key = NxGraph.node_get g1 k key) /\
+      NxGraph.node_keys gf = NxGraph.node_keys g2 /\ (aa = false -> gf = g2).
+  Proof. exact (SampleSorted.sample_sorted_graph M c0 madd mltb misz R pick cfg Wf Ha). Qed.
   (** ... and valence completeness of all-atom samples without a hypothesis on the transcript *)
   Theorem C16_sample_valence_total : forall target fuel rng start nm i0 m cw log rng' car g',
     sample_growth M c0 madd mltb misz R pick cfg target fuel rng start = Ok (nm, i0, m, cw, log, rng') ->
@@ -249,6 +266,7 @@ Print Assumptions C16_valid_draw_accepted.
 Print Assumptions C16_descriptor_once.
 Print Assumptions C16_sample_numbering_total.
 Print Assumptions C16_sample_valence_total.
+Print Assumptions C16_sample_sorted_graph.
 Print Assumptions C16_sample_graph_wf.
 Print Assumptions C16_sample_valence_complete.
 Print Assumptions C16_copy_iso_template.
